@@ -37,9 +37,12 @@ def write_annotations(f: Callable) -> Callable:
                 yield item
         if annots is not None and formula in annots:
             for key, values in annots[formula].items():
-                self.write(" :%s" % str(key))
+                # An attribute takes at most one value: one attribute
+                # per value (e.g. a term that was given two names)
+                if len(values) == 0:
+                    self.write(" :%s" % str(key))
                 for value in values:
-                    self.write(" %s" % str(value))
+                    self.write(" :%s %s" % (str(key), str(value)))
             self.write(')')
     return resf
 
@@ -51,8 +54,10 @@ def write_annotations_dag(f: Callable) -> Callable:
             return res
         items = list()
         for key, values in annots[formula].items():
-            items.append(f' :{key}')
-            items.extend(f' {v}' for v in values)
+            # One attribute per value (see write_annotations)
+            if len(values) == 0:
+                items.append(f' :{key}')
+            items.extend(f' :{key} {v}' for v in values)
         kv = ''.join(items)
         return f'(! {res}{kv})'
     return resf
